@@ -20,7 +20,7 @@ ASSUMPTIONS = [
     "the oracle never reads Resolver._match_cache; its length is sampled only to report evictions",
 ]
 GATES = ["mon.C08.relaxed", "mon.C08.strict", "mon.C08.get_agreement", "mon.C08.history", "C08.strict_raised", "C08.strict_returned_with_dead_end_free",
-         "C08.metachar_name", "C08.order_clause", "C08.dup_clause", "C08.cache_evictions_forced", "C08.opposite_ic_first", "C08.starstar", "C08.duplicate_sibling_names"]
+         "C08.metachar_name", "C08.order_clause", "C08.dup_clause", "C08.cache_evictions_forced", "C08.opposite_ic_first", "C08.starstar", "C08.duplicate_sibling_names", "C08.after_mutation"]
 
 
 def plan(tier, seed, jobs):
@@ -55,12 +55,12 @@ def idlist(idmap, xs):
     return [idmap.get(id(x), "?") for x in xs]
 
 
-def check_glob(ctx, lib, nodes, idmap, par, ch, names, start, pattern, sep, ic, case, unique, history="plain", pathattr="name"):
+def check_glob(ctx, lib, nodes, idmap, par, ch, names, start, pattern, sep, ic, case, unique, history="plain", pathattr="name", resolvers=None):
     snames = [str(x) for x in names]
     ref = RR.ref_glob(par, ch, snames, start, pattern, sep, ic)
     cfg = dict(case, start=start, pattern=pattern, ignorecase=ic, history=history)
-    rr = lib.Resolver(pathattr, ignorecase=ic, relax=True)
-    rs = lib.Resolver(pathattr, ignorecase=ic, relax=False)
+    rr = resolvers[(ic, True)] if resolvers else lib.Resolver(pathattr, ignorecase=ic, relax=True)
+    rs = resolvers[(ic, False)] if resolvers else lib.Resolver(pathattr, ignorecase=ic, relax=False)
     if history == "burst":
         ctx.count("mon.C08.history")
         if burst(lib, pattern):
@@ -270,9 +270,74 @@ def run(ctx):
             hk = "burst" if rng.random() < 0.1 else "plain"
             if not check_glob(ctx, lib, nodes, idmap, par, ch, names, s, p, "/", ic, case, True, hk):
                 break
+    mutation_histories(ctx, lib)
+
+
+def mutation_histories(ctx, lib):
+    """Long-lived Resolver objects (and the shared pattern cache) are reused while the tree is renamed and
+    restructured between glob calls."""
+    from .. import trees as TR
+
+    T = ctx.tier == "thorough"
+    nh = (2000 if T else 200) // ctx.nshards + 1
+    pool = ["a", "b", "A", "ab", "a.b", "c", "n1", "a+"]
+    for h in range(nh):
+        rng = ctx.rng("mhist", h)
+        k = rng.randint(3, 8)
+        res = {(ic, relax): lib.Resolver("name", ignorecase=ic, relax=relax) for ic in (False, True) for relax in (False, True)}
+        names = None
+        renames = []
+        for nodes, par, ch, case in TR.evolving_universe(ctx, rng, "Node", k, rng.randint(4, 14)):
+            if names is None:
+                names = [n.name for n in nodes]
+            for _ in range(rng.randint(0, 2)):
+                i = rng.randrange(k)
+                new = rng.choice(pool)
+                names[i] = new
+                nodes[i].name = new
+                renames.append([len(case["history"]), "set", i, new])
+            ctx.count("C08.after_mutation")
+            idmap = {id(o): i for i, o in enumerate(nodes)}
+            c2 = dict(case, kind="hist", sep="/", names=list(names), renames=[list(x) for x in renames])
+            for q in range(8):
+                s = rng.randrange(k)
+                p = patterns_for(rng, names, "/", lambda: RR.abs_path(par, names, rng.randrange(k), "/"))
+                for ic in (False, True):
+                    ctx.case(("mhist", h, len(case["history"]), q, ic), nontrivial=True)
+                    if not check_glob(ctx, lib, nodes, idmap, par, ch, names, s, p, "/", ic, c2, sibling_unique(ch, par, names, ic), "plain", resolvers=res):
+                        return
 
 
 def replay(ctx, wit):
+    if "history" in wit["case"] and "renames" in wit["case"]:
+        return replay_history(ctx, wit)
+    _replay_static(ctx, wit)
+
+
+def replay_history(ctx, wit):
+    from .. import trees as TR
+    from ..common import lib as getlib
+
+    lib = getlib()
+    c = wit["case"]
+    ctx.case(("replay",))
+    res = {(ic, relax): lib.Resolver("name", ignorecase=ic, relax=relax) for ic in (False, True) for relax in (False, True)}
+    names = None
+    for step, (nodes, par, ch) in enumerate(TR.replay_universe(c)):
+        if names is None:
+            names = [n.name for n in nodes]
+        for st, what, i, x in c.get("renames", []):
+            if st == step:
+                names[i] = x
+                nodes[i].name = x
+        idmap = {id(o): i for i, o in enumerate(nodes)}
+        for p in [c.get("pattern", "*"), "*", "**", "*/*"]:
+            for s in range(len(nodes)):
+                for ic in (False, True):
+                    check_glob(ctx, lib, nodes, idmap, par, ch, names, s, p, "/", ic, c, sibling_unique(ch, par, names, ic), "plain", resolvers=res)
+
+
+def _replay_static(ctx, wit):
     from ..common import lib as getlib
 
     lib = getlib()
